@@ -387,10 +387,17 @@ func runC01(c *Ctx) {
 	for _, fn := range scope {
 		inScope[short(FuncName(fn))] = fn
 	}
-	nb := 0
+	nb, vanished := 0, 0
 	for _, name := range c01Covered {
 		fn := inScope[name]
 		if fn == nil {
+			if !c.W.moduleHasFunc(name) && vanished < 2 {
+				// deleted (inlined into its callers): there is no code left to bound; at most two such
+				// functions are tolerated before the list counts as eroded
+				vanished++
+				c.OK("R-BOUNDS", name, "covered function is still part of the parser scope", "-", "the function no longer exists in the module (nothing to bound; its callers are judged under their own names)")
+				continue
+			}
 			c.Undecided("R-BOUNDS", name, "covered function is still part of the parser scope", "-", "not found in the closure of the entry points")
 			continue
 		}
